@@ -157,6 +157,9 @@ type aworld struct {
 	g      *ca.Group
 	router *ca.Router
 	chans  []*chanModel
+	// life is the parent of every caller context; it ends only at teardown
+	life       context.Context
+	lifeCancel context.CancelFunc
 
 	nextMsgID atomic.Uint64
 
